@@ -96,6 +96,11 @@ var maxVisited = func() int {
 	if v, err := strconv.Atoi(os.Getenv("VERIF_MAX_VISITED")); err == nil && v > 0 {
 		return v
 	}
+	if os.Getenv("VERIF_TIER") == "quick" {
+		// quick runs end within minutes (5-minute deadline), so their tables stay small in practice;
+		// the tight bound is for the 30-minute thorough runs that exhausted the machine
+		return 40_000_000
+	}
 	return 12_000_000
 }()
 
